@@ -673,6 +673,24 @@ func gen(c *harness.C) []harness.Case {
 		for _, n := range floods {
 			cases = append(cases, histCase(e, fmt.Sprintf("flood/%d", n), []op{{K: "burst", S: 1, T: "A", N: n}, {K: "recv", S: 2, T: "A"}, {K: "send", T: "A"}}))
 		}
+		// a sender keeps two topics open, the local party starts one of them, the sender opens the
+		// next ones, and so on: starting a topic gives back that topic's slot, not the whole allowance
+		{
+			var h []op
+			tp := func(i int) string { return fmt.Sprintf("R%02d", i) }
+			next := 0
+			for ; next < maxTopics; next++ {
+				h = append(h, op{K: "recv", S: 1, T: tp(next)})
+			}
+			for round := 0; round < 6; round++ {
+				h = append(h, op{K: "send", T: tp(2 * round)})
+				for j := 0; j < maxTopics+1; j++ {
+					h = append(h, op{K: "recv", S: 1, T: tp(next)})
+					next++
+				}
+			}
+			cases = append(cases, histCase(e, "start-one-open-more", h))
+		}
 		// topics that agree in their first / last bytes are different topics
 		for _, pat := range []string{"SAMEPREFIX-%d", "SAMEPREFIXSAMEPREFIXSAMEPREFIX-%d", "%d-SAMESUFFIXSAMESUFFIXSAMESUFFIX"} {
 			var h []op
